@@ -26,10 +26,15 @@ CFGS = [
 
 # transaction tables / request mixes used for behaviour generation (names defined in Percolator.tla)
 TABLES = [
-    {"commit": "CommitB", "kinds": "KindsB", "minc": "MinCB", "keys": "KeysA", "checks": "ChecksT"},
-    {"commit": "CommitA", "kinds": "KindsC", "minc": "MinCA", "keys": "KeysA", "checks": "ChecksQ"},
-    {"commit": "CommitB", "kinds": "KindsA", "minc": "MinCA", "keys": "KeysB", "checks": "ChecksT"},
+    {"start": "StartA", "commit": "CommitB", "kinds": "KindsB", "minc": "MinCB", "keys": "KeysA", "checks": "ChecksT"},
+    {"start": "StartA", "commit": "CommitA", "kinds": "KindsB", "minc": "MinCA", "keys": "KeysA", "checks": "ChecksQ"},   # disjoint: put, then lock-only, then delete all commit
+    {"start": "StartA", "commit": "CommitB", "kinds": "KindsA", "minc": "MinCA", "keys": "KeysB", "checks": "ChecksT"},
+    # start order differs from commit order: [5,30] [10,40] [20,25]; and far off the 10/20/30 grid: [7,2000] [100,1500] [1000,1200]
+    {"start": "StartB", "commit": "CommitC", "kinds": "KindsA", "minc": "MinCA", "keys": "KeysA", "checks": "ChecksT"},
+    {"start": "StartC", "commit": "CommitD", "kinds": "KindsC", "minc": "MinCB", "keys": "KeysA", "checks": "ChecksT"},
 ]
+OVERLAPPING = [0, 2, 3, 4]      # tables whose transactions have overlapping [start, commit] intervals
+GENMODES = ["contend", "late", "mixed", "effective", "any"]
 ALLOPS = ["Prewrite", "Commit", "Rollback", "ResolveRollback", "ResolveCommit", "Check", "CheckRollbackIfNotExist"]
 MIXES = [
     ALLOPS,
@@ -44,7 +49,7 @@ MAINT = [
     [{"op": "Rotate"}], [{"op": "Rotate"}, {"op": "Flush"}], [{"op": "Flush"}],
     [{"op": "Compact", "ckind": "l0", "base": 1}], [{"op": "Compact", "ckind": "ingest-keep", "level": 1}],
     [{"op": "Compact", "ckind": "ingest-drain", "level": 1}], [{"op": "Compact", "ckind": "regular", "level": 1}],
-    [{"op": "Reopen"}],
+    [{"op": "Reopen"}], [{"op": "Rotate"}, {"op": "Rotate"}],
 ]
 
 KEEP = {
@@ -69,6 +74,7 @@ def project(ev):
 
 def write_cfg(ctx, name, table, ops, maxhist, genmode):
     src = open(os.path.join(ctx._specdir(), "Gen_Percolator.cfg")).read()
+    src = re.sub(r"StartTs <- \w+", "StartTs <- " + table["start"], src)
     src = re.sub(r"CommitTs <- \w+", "CommitTs <- " + table["commit"], src)
     src = re.sub(r"KindOf <- \w+", "KindOf <- " + table["kinds"], src)
     src = re.sub(r"MinCOf <- \w+", "MinCOf <- " + table["minc"], src)
@@ -121,10 +127,20 @@ def readts_of(ops):
 def interleave(rng, ops, mode):
     """Place maintenance steps between requests. mode 0: none; 1: rotate+flush after every request;
     2: a random step with probability 0.3 after each request; 3: the recorded-finding shape (flush
-    after every request, then move L0 into the ingest buffer and merge it)."""
+    after every request, then move L0 into the ingest buffer and merge it); 4: rotation after every request with
+    flushes held back, so that consecutive changes of a column entry sit in two or three sealed, unflushed memtables."""
     if mode == 0:
         return list(ops)
     out = []
+    if mode == 4:       # rotate after every request, flush only to keep at most three sealed memtables waiting
+        pending = 0
+        for o in ops:
+            out += [o, {"op": "Rotate"}]
+            pending += 1
+            if pending >= 3:
+                out.append({"op": "Flush"})
+                pending -= 1
+        return out
     for o in ops:
         out.append(o)
         if mode in (1, 3):
@@ -141,6 +157,30 @@ def build_quietly(ctx):
         ctx.build("percolator")
     except Undecided:
         pass                        # reported by run_driver, which builds again
+
+
+def close_commits(h):
+    """The client's next step: a commit for every (transaction, key) the history prewrote, whatever the replies were."""
+    seen, tail = set(), []
+    for o in h:
+        if o["op"] == "Prewrite" and (o["start"], o["k"]) not in seen and o.get("cts"):
+            seen.add((o["start"], o["k"]))
+            tail.append({"op": "Commit", "start": o["start"], "commit": o["cts"], "k": o["k"]})
+    return list(h) + tail
+
+
+def inject_retries(h):
+    """A client retries its prewrite with a longer TTL right after a status check with a caller timestamp touched the key."""
+    out, last = [], {}
+    for o in h:
+        out.append(o)
+        if o["op"] == "Prewrite":
+            last[(o["start"], o["k"])] = o
+        elif o["op"] == "Check" and o.get("caller") and (o["start"], o["k"]) in last:
+            r = dict(last[(o["start"], o["k"])])
+            r["ttl"] = r.get("ttl", 0) + 9
+            out.append(r)
+    return out
 
 
 def run_driver(ctx, scheds):
@@ -241,7 +281,7 @@ def classify(events, line):
 def m1(ctx, quick, box):
     try:
         runs = []
-        cfgs = ["MC_Percolator.cfg"] if quick else ["MC_Percolator.cfg", "MC_Percolator_disjoint.cfg", "MC_Percolator_full.cfg"]
+        cfgs = ["MC_Percolator.cfg"] if quick else ["MC_Percolator.cfg", "MC_Percolator_disjoint.cfg", "MC_Percolator_nested.cfg", "MC_Percolator_full.cfg"]
         for c in cfgs:
             r = ctx.tlc_or_undecided("Percolator", c, timeout=1500, coverage=(not quick and c == "MC_Percolator.cfg"))
             if r.violated:
@@ -282,18 +322,23 @@ def run(ctx):
         # ------------------------------------------------------------ M2
         jobs = []
         num = 8
-        grid = [(ti, mi, gm) for ti in range(len(TABLES)) for mi in range(len(MIXES)) for gm in ("mixed", "late", "effective", "any")]
-        for gi, (ti, mi, gm) in enumerate(grid):
-            if (gi + ctx.seed) % (8 if quick else 2) != 0:
-                continue            # a seed-dependent eighth (quick) / half (thorough) of the (table, mix, mode) grid
+        if quick:       # every generation mode is present in every run; table and mix rotate with the seed
+            combos = []
+            for n, gm in enumerate(["contend", "contend", "late", "late", "mixed", "mixed", "effective", "any"]):
+                ti = OVERLAPPING[(ctx.seed + n) % len(OVERLAPPING)] if gm == "contend" else (ctx.seed + n) % len(TABLES)
+                combos.append((ti, (ctx.seed + 2 * n) % len(MIXES), gm))
+        else:           # a seed-dependent third of the (table, mix, mode) grid
+            grid = [(ti, mi, gm) for ti in range(len(TABLES)) for mi in range(len(MIXES)) for gm in GENMODES]
+            combos = [c for gi, c in enumerate(grid) if (gi + ctx.seed) % 3 == 0]
+        for gi, (ti, mi, gm) in enumerate(combos):
             for depth in ((10,) if quick else (8, 14)):
-                name = "Gen_%d_%d_%s_%d.cfg" % (ti, mi, gm, depth)
+                name = "Gen_%d_%d_%d_%s_%d.cfg" % (gi, ti, mi, gm, depth)
                 write_cfg(ctx, name, TABLES[ti], MIXES[mi], depth, gm)
-                jobs.append((name, num, depth, ctx.seed * 10007 + gi * 101 + depth))
+                jobs.append((name, num, depth, ctx.seed * 10007 + gi * 101 + depth, gm))
         with ThreadPoolExecutor(max_workers=ctx.workers) as ex:
-            hists = [h for part in ex.map(lambda j: gen_schedules(ctx, *j), jobs) for h in part]
+            hists = [(j[4], h) for j, part in zip(jobs, ex.map(lambda j: gen_schedules(ctx, *j[:4]), jobs)) for h in part]
         ctx.rng.shuffle(hists)
-        hists = hists[:90 if quick else 400]
+        hists = hists[:75 if quick else 400]
         cex = [] if quick else asis_counterexamples(ctx)
         scheds, origin = [], {}
 
@@ -301,17 +346,24 @@ def run(ctx):
             s = {"id": len(scheds), "cfg": cfg, "nkeys": 2, "readts": readts_of(ops), "probe": True, "ops": interleave(ctx.rng, ops, mode)}
             origin[s["id"]] = tag
             scheds.append(s)
-        for i, h in enumerate(hists):
+        for i, (gm, h) in enumerate(hists):
+            # request-level variations of the TLC behaviour (still behaviours of Percolator.tla, which accepts any
+            # request in any state): closing commits for every prewritten key, retried prewrites after status checks
+            tag = "tlc-simulate:" + gm
+            if gm == "contend" or i % 3 == 0:
+                h, tag = close_commits(h), tag + "+commits"
+            if i % 2 == 1:
+                h, tag = inject_retries(h), tag + "+retries"
             # C17/C19 quantify over flush/compaction placement: most behaviours get maintenance steps
             # (a rotation+flush costs ~0.3 s of engine time, so the dense modes go to the short histories)
             if quick:
-                modes = [(0, 2, 2, 1, 2, 0, 2, 3)[(i + ctx.seed) % 8]]
+                modes = [(0, 2, 2, 1, 2, 0, 4, 3)[(i + ctx.seed) % 8]]
                 if len(h) > 8 and modes[0] in (1, 3):
                     modes = [2]
             else:
-                modes = [0, 2] + ([(1, 3)[i % 2]] if len(h) <= 10 else [2])
+                modes = [0, 2] + ([(1, 3, 4)[i % 3]] if len(h) <= 10 else [(2, 4)[i % 2]])
             for j, mode in enumerate(modes):
-                add(h, CFGS[(i + j + ctx.seed) % len(CFGS)], mode, "tlc-simulate")
+                add(h, CFGS[(i + j + ctx.seed) % len(CFGS)], mode, tag)
         # recorded findings and repaired defects stay in the schedule set
         extra = json.load(open(os.path.join(VERIF, "findings", "percolator_replays.json")))
         for rp in extra:
@@ -405,12 +457,13 @@ def run(ctx):
                 k = e["e"] + ":" + e["r"] + (":" + e["act"] if e["e"] == "Check" else "")
                 replies[k] = replies.get(k, 0) + 1
     mq = m1runs[0][1]
-    sample = next((s for s in order if origin[s] == "tlc-simulate"), order[0])
+    sample = next((s for s in order if origin[s].startswith("tlc-simulate")), order[0])
     ctx.evidence("model_checking", {
         "states": sum(r.distinct for _, r in m1runs), "transitions": sum(r.generated for _, r in m1runs),
         "traces_validated_against_impl": len(tl), "evaluations": len(tl), "distinct_nontrivial": len(distinct),
         "rule": "request histories of Percolator.tla produced by TLC -simulate over %d (transaction table, request mix, depth) configurations, "
-                "with rotation/flush/compaction/reopen steps interleaved, plus recorded replays%s; each executed through raftstore/kv.Apply on a real DB "
+                "request-level variations (closing commits for every prewritten key, retried prewrites with a longer TTL after status checks), "
+                "rotation/flush/compaction/reopen steps interleaved (incl. rotations with flushes held back), plus recorded replays%s; each executed through raftstore/kv.Apply on a real DB "
                 "with lock probes, GETs and SCANs after every step; non-trivial = %s" % (
                     len(jobs), "" if quick else " and TLC counterexamples of the five recorded deviations",
                     {"C17": "some GET returns a value for a key on which a transaction committed/rolled back earlier in the history",
